@@ -7,6 +7,8 @@ from harness.impl_loc import impl_loc_op, enc_loc
 ID = "C01"
 LEAN_MODULE = "BioCantor.Props.C01"
 DESIGN_REF = "4/C01"
+EXTRA_LEAN_MODULES = ["BioCantor.Props.C01Ties"]   # Gen kernels (regenerated from source) = hand-written model
+GEN_NEEDS = ["SingleInterval_", "Strand_"]
 DRIVER = "drivers/C01.lean"
 SPEC_DRIVER = "drivers/SpecC01.lean"
 DRIVER_MODULES = ["BioCantor.Driver.Main", "BioCantor.Driver.Loc"]
